@@ -228,13 +228,29 @@ def r4(db, rep):
             # the edge on which `the block ends at / below the ACK` is known (whichever way the test is written and
             # whichever branch it guards): nothing to record there
             for pol in (True, False):
-                for op, l, r in cond.facts_of(f, c, pol):
+                fl_ = cond.facts_of(f, c, pol)
+                c0_ = facts.strip_all(c)
+                if not pol and c0_["k"] == "BinaryOperator" and c0_.get("op") == "&&" and \
+                        any(g.idx.get(b2.get("cond")) is not None and facts.strip_all(g.idx.get(b2["cond"])) is facts.strip_all(c0_["c"][0])
+                            for b2 in g.blocks.values() if b2.get("cond") is not None and b2 is not b):
+                    # short-circuit: this block evaluates the RIGHT operand only (the left one has a block of its own and was
+                    # true); on its false edge the right operand is false
+                    fl_ = fl_ + cond.facts_of(f, c0_["c"][1], False)
+                for op, l, r in fl_:
                     if op in (">=", "<=") and r is not None and facts.cval(r) == 0:
                         l0 = strip(l)
                         if l0["k"] == "CallExpr" and l0.get("cname") == "seq_compare" and len(l0["c"]) == 3:
                             a1 = facts.expr_str(facts.inline_locals(f, l0["c"][1]))
                             a2 = facts.expr_str(facts.inline_locals(f, l0["c"][2]))
-                            if (op == "<=" and "last()" in a1 and "ack_number_" in a2) or (op == ">=" and "ack_number_" in a1 and "last()" in a2):
+                            # the block's last byte: `range.last()`, or the expression the range is / will be built from
+                            ends = set(["last()"])
+                            for d_ in decl:
+                                ce_ = facts.strip_all(d_["c"][0]) if d_.get("c") else None
+                                args_ = [x_ for x_ in (ce_.get("c") or []) if x_ is not None] if ce_ is not None else []
+                                if len(args_) == 2:
+                                    ends.add(facts.expr_str(facts.inline_locals(f, args_[1])))
+                            if (op == "<=" and any(e_ in a1 for e_ in ends) and "ack_number_" in a2) or \
+                                    (op == ">=" and "ack_number_" in a1 and any(e_ in a2 for e_ in ends)):
                                 skip.add((b["id"], 0 if pol else 1))
     w = g.reaches_exit_avoiding(D, [L], normal_only=True, skip_edges=skip)
     if w is None and skip:
